@@ -101,6 +101,9 @@ def run(run):
     for ck in check_rdms(run, E):
         fails += ck.failed
     finish_engine(E, run)
+    # callee contract: per-centre RDMs group the events by get_unique_inverse
+    from contracts.common import discharge_unique_inverse
+    fails += discharge_unique_inverse(run, 'C19')
     run.trust('joblib.Parallel returns results in submission order (assumed contract; real worker schedules cannot be explored)')
     run.trust('scipy cdist(euclidean) = sqrt of the sum of squared differences; np.meshgrid/vstack enumerate the full product of the three filtered ranges')
     finish(run, fails, 'C19')
